@@ -6,7 +6,8 @@
    part of this check) observes what no model can exhibit: fresh interpreter processes, hash seeds,
    locales and default encodings all produce byte-identical output. *)
 From Coq Require Import List Bool String ZArith Permutation.
-From FM Require Import Base.Result Model.FM Format.Json Format.Glencoe Format.Xml Format.Uvl Format.Afm Format.Export.
+From FM Require Import Base.Result Model.FM Format.Json Format.Glencoe Format.Xml Format.Uvl Format.Afm Format.Export
+     Model.PyRt Gen.Src_json Gen.Src_glencoe Gen.Src_pl Gen.Src_splot Gen.Src_clafer Gen.Src_afm.
 Import ListNotations.
 Local Open Scope list_scope.
 
@@ -41,3 +42,20 @@ Proof.
   - congruence.
 Qed.
 Print Assumptions C12_pl_order.
+
+(* ---- read off the SOURCE (DESIGN §10).  Six writers are re-translated from the Python text on every run
+   (json, glencoe: the document builders; pl, splot, clafer, afm: the whole transform()).  The translator accepts a
+   mutation only on a list / dict the function created itself and the one `with open(path, 'w', encoding='utf8') as f:
+   f.write(text)` whose text is the local that is then returned — so the EXISTENCE of these definitions (checked as the
+   obligation source-translation of this property) is the statement "the writer does not modify the model, writes
+   UTF-8, and returns what it wrote" about the source, and being Gallina functions of the model value they cannot
+   depend on anything else: not on the path, not on an earlier call. ---- *)
+Theorem C12_source_output_is_a_function_of_the_model : forall fuel m p1 p2,
+  py_PLWriter_transform fuel (py_PLWriter_new p1 m) = py_PLWriter_transform fuel (py_PLWriter_new p2 m) /\
+  py_SPLOTWriter_transform fuel (py_SPLOTWriter_new p1 m) = py_SPLOTWriter_transform fuel (py_SPLOTWriter_new p2 m) /\
+  py_ClaferWriter_transform fuel (py_ClaferWriter_new p1 m) = py_ClaferWriter_transform fuel (py_ClaferWriter_new p2 m).
+Proof. intros. repeat split; reflexivity. Qed.
+Print Assumptions C12_source_output_is_a_function_of_the_model.
+
+(* the document builders of the two JSON writers, as functions of the model *)
+Definition source_document_builders : (nat -> fm -> result aval) * (nat -> fm -> result aval) := (py_to_json, py__to_json).
